@@ -14,6 +14,8 @@ def run(ctx):
         obl=("Obl_C06.v", ["c06_routes_classified", "c06_no_stale_rows", "c06_keys_unique"]),
         cases=("CasesC06.v", [("c06_gate_mismatches", "checkAuth (user, level, status, issue instant) = model check_auth on every shape (single credentials and certificate x cookie x basic-auth combinations) x mask x method x origin x deny list", "CasesC06_gate.idx"),
                               ("c06_route_mismatches", "per route of the regenerated mux: logged identity = model, observed effects within the model's"),
+                              ("c06_window_gate_mismatches", "checkAuth on session cookies minted around the request (exp / nbf a few seconds to an hour before and after the clock, iat in the future, with and without a basic-auth header) = model check_auth at a clock reading inside the interval measured around the call (nanoseconds; no other tolerance)", "CasesC06_wgate.idx"),
+                              ("c06_window_route_mismatches", "the same cookies through representative routes (certgen, profile, TOTP generation, token manager, OpenID authorization, U2F sign request): logged identity and effects = model run at a clock reading inside the measured interval", "CasesC06_wroute.idx"),
                               ("c06_webui_mismatches", "getRequiredWebUIAuthLevel() = model webui_level on every subset of the backend names and on the loaded configurations", "CasesC06_webui.idx")],
                "CasesC06_route.idx"),
         trusted=["signature verification (go-jose, crypto/x509 chain building) is symbolic in the model: the harness knows by construction which token / chain is genuine and the real verifier has to find out from the bytes",
